@@ -471,13 +471,13 @@ pub fn batch_main(args: &[String]) -> i32 {
     let replays_dir = format!("{VERIF_DIR}/replays");
     let _ = std::fs::create_dir_all(&replays_dir);
     for (v, seed, plan) in a.violations.iter() {
-        let (min_plan, tried) = if v.rule == "CRASH.process" { (plan.clone(), 0) } else { minimise(&check, plan, &v.rule, &v.key, jobs, 320) };
+        let (min_plan, tried) = minimise(&check, plan, &v.rule, &v.key, jobs, 320);
         // Re-run the minimised plan to get its own detail and log hash.
         let (final_v, log_hash) = match run_plan(&check, &min_plan, "final") {
             ChildOut::Ok(r) => (same_violation(&r, &v.rule, &v.key).unwrap_or(v.clone()), r.log_hash),
             ChildOut::Crash(m) => (Violation { rule: v.rule.clone(), key: v.key.clone(), detail: m }, 0),
         };
-        let file = format!("{replays_dir}/{check}-{}-{}.json", final_v.rule.replace('.', "_"), seed);
+        let file = format!("{replays_dir}/{check}-{}-{}-{:x}.json", final_v.rule.replace('.', "_"), seed, fnv_str(&final_v.key) & 0xffff);
         let replay = serde_json::json!({
             "check": check, "verif_seed": verif_seed, "run_seed": seed, "rule": final_v.rule, "key": final_v.key, "detail": final_v.detail,
             "log_hash": log_hash, "minimise_candidates_tried": tried, "original_ops": plan.op_count(), "minimised_ops": min_plan.op_count(), "plan": min_plan,
